@@ -157,8 +157,12 @@ def run(module, cfg_text, tag, workers=16, env=None, timeout=3600, simulate=None
 def sany(module):
     cmd = ["java", "-cp", _classpath(), "tla2sany.SANY", module + ".tla"]
     p = subprocess.run(cmd, cwd=SPEC, stdout=subprocess.PIPE, stderr=subprocess.STDOUT, universal_newlines=True)
-    bad = p.returncode != 0 or "error" in p.stdout.lower().replace("semantic errors:\n\n", "")
-    return (not bad), p.stdout
+    bad = p.returncode != 0 or "*** Errors" in p.stdout or "Fatal" in p.stdout or "Could not parse" in p.stdout
+    if bad:
+        # keep only the last error block (SANY repeats accumulated errors after every module)
+        i = p.stdout.rfind("*** Errors")
+        return False, p.stdout[i:] if i >= 0 else p.stdout[-3000:]
+    return True, ""
 
 
 def iter_records(path):
